@@ -307,7 +307,7 @@ Proof. exact weights_from_counts_spec. Qed.
 
 (** the Huffman-coded literals section from the literals alone: table of [build_from_data], description of the weights
     derived back from the code lengths (direct form up to 16 written weights, FSE-compressed above; for the latter the
-    normaliser result and the < 128 bytes assertion are hypotheses), four streams *)
+    < 128 bytes assertion of the source is the one hypothesis), four streams *)
 Theorem C02_compressor_huffman_section_from_the_literals : forall data a b h,
   Forall (fun s => 0 <= s <= 255) data -> In a data -> In b data -> a <> b ->
   16 <= zlen data <= 131072 ->
@@ -318,9 +318,9 @@ Theorem C02_compressor_huffman_section_from_the_literals : forall data a b h,
        let payload := direct_desc written ++ huf4_bytes (code_fn codes) data in
        zlen payload < zlen data ->
        exists t, lit_ok h data (huf_lit_header 2 (zlen data) (zlen payload)) payload t) /\
-    (forall al probs d, (16 < length written)%nat -> t_max_symbol (ht_fse h) = 255 ->
-       norm_counts (weight_hist written) 6 true = ROk (al, probs) -> desc_bytes al probs = Some d ->
-       exists D, fse_build_from_probabilities (ht_fse h) al probs = ROk D /\
+    ((16 < length written)%nat -> t_max_symbol (ht_fse h) = 255 ->
+       exists al probs d D, norm_counts (weight_hist written) 6 true = ROk (al, probs) /\ desc_bytes al probs = Some d /\
+         fse_build_from_probabilities (ht_fse h) al probs = ROk D /\
          let stream := stream_bytes (weight_fields (enc_of_dec D) written) in
          let hb := zlen d + zlen stream in
          hb < 128 ->
